@@ -34,6 +34,9 @@ func (w *Writer) Emit(v interface{}) {
 
 func (w *Writer) Close() { w.w.Flush(); w.f.Close() }
 
+// Flush hands the buffered lines to the file (a supervisor may watch the file grow as a sign of progress).
+func (w *Writer) Flush() { w.w.Flush() }
+
 func WriteJSON(path string, v interface{}) {
 	b, _ := json.MarshalIndent(v, "", " ")
 	os.WriteFile(path, b, 0o644)
